@@ -80,16 +80,39 @@ fn push_word(out: &mut Vec<u8>, enc: Enc, v: u64) {
 /// SysV `.hash` for symbols `names[0..n]` (index 0 is the null symbol and is never chained).
 /// Every symbol 1..n is reachable; chains ascend.
 pub fn build_sysv(order: Order, names: &[Vec<u8>], nbucket: usize) -> Vec<u8> {
+    build_sysv_threaded(order, names, nbucket, 0)
+}
+
+/// `threading`: 0 = chains ascend (head = smallest index), 1 = chains descend (what linkers that
+/// prepend produce), 2 = mixed (odd indexes prepended, even ones appended).
+pub fn build_sysv_threaded(order: Order, names: &[Vec<u8>], nbucket: usize, threading: u8) -> Vec<u8> {
     let n = names.len();
     let mut bucket = vec![0u32; nbucket];
     let mut chain = vec![0u32; n];
     if nbucket > 0 {
-        let mut i = n;
-        while i > 1 {
-            i -= 1;
+        // per-bucket member lists in the wanted order, then thread them
+        let mut members: Vec<Vec<usize>> = vec![Vec::new(); nbucket];
+        for i in 1..n {
             let b = (elf_hash(&names[i]) as usize) % nbucket;
-            chain[i] = bucket[b];
-            bucket[b] = i as u32;
+            match threading {
+                0 => members[b].push(i),
+                1 => members[b].insert(0, i),
+                _ => {
+                    if i % 2 == 1 {
+                        members[b].insert(0, i)
+                    } else {
+                        members[b].push(i)
+                    }
+                }
+            }
+        }
+        for (b, m) in members.iter().enumerate() {
+            for (k, i) in m.iter().enumerate() {
+                if k == 0 {
+                    bucket[b] = *i as u32;
+                }
+                chain[*i] = if k + 1 < m.len() { m[k + 1] as u32 } else { 0 };
+            }
         }
     }
     let mut out = Vec::new();
